@@ -78,6 +78,16 @@ def main():
     cov["translator"] = msg
     if not ok:
         proof_broken.append("translator: " + msg)
+    else:
+        # a section of the source the translator no longer recognises breaks the tie of exactly
+        # the properties that depend on it
+        try:
+            tinfo = json.load(open(os.path.join(ROOT, "build", "translate_info.json")))
+        except Exception:
+            tinfo = {}
+        for sec, why in tinfo.get("failed_sections", {}).items():
+            if pid in why.get("properties", []):
+                proof_broken.append("translator: section %s of the source is no longer recognised (%s); the model keeps the last known-good values" % (sec, why.get("why")))
     targets = ["fsmodel"] + list(P.get("lean_modules", []))
     lake_ok, lake_out = build.lake_build(targets)
     failed_modules = []
